@@ -270,11 +270,16 @@ package rsm
 //@ trusted opaque for C15 (hashing / header parsing are outside the subset)
 //@ ensures result != nil && fresh(result)
 
+// gLastAddOK: the validator accepted the chunk most recently handed to it; gStreamValid: it validated the whole stream
+//@ ghost var gLastAddOK bool
+//@ ghost var gStreamValid bool
 //@ func (v *SnapshotValidator) AddChunk [C15]
 //@ trusted opaque for C15 (hashing / header parsing are outside the subset); only the validator's own state changes
+//@ ghostset gLastAddOK := result
 
 //@ func (v *SnapshotValidator) Validate [C15]
 //@ trusted opaque for C15
+//@ ghostset gStreamValid := result
 
 // ---------------------------------------------------------------- snapshot block writer (C14)
 
